@@ -272,6 +272,9 @@ Definition clamp_e (ke kn : nat) : expr :=
 Definition nz_e (kb ke : nat) : expr := EOrElse (EBin ONe I32 (ld kb) (EConst 0)) (EBin ONe I32 (ld ke) (EConst 0)).
 Definition guard_rn : stmt := SIf (EAndAlso (region_e 4 5) (nz_e 4 5)) ret1 SSkip.
 
+Lemma get_local_ok0 Lx mx k v : nth_error Lx k = Some v -> v <> VUndef -> get_local (mkst Lx mx) k = Ok v.
+Proof. intros H N. unfold get_local. cbn [locals]. rewrite H. destruct v; [congruence|reflexivity|reflexivity]. Qed.
+
 Section Cmds.
   Variable ext : nat -> list val -> mem -> res (val * mem).
   Variable fuel : nat.
@@ -318,6 +321,19 @@ Section Cmds.
     - apply pure_sub; [|apply pure_const|unfold TrExAddr.int_ok in *; lia].
       apply pure_sub; [|apply (pure_local _ kn L m5 n Hkn)|unfold TrExAddr.int_ok in *; lia].
       apply pure_add; [apply (pure_ld _ ke L m5 be e' Hke He Ie)|exact Pl|exact Hfit].
+  Qed.
+
+  (* ---- lbuf_get(xb, pos) for a row inside the buffer: cell pos of the table lb->ln *)
+  Lemma cx_lbuf_get D mx bl lblk n bln lnblk pos p o : nth_error mx bl = Some lblk -> nth_error lblk L_ln_n = Some (VInt n) -> iok n ->
+    nth_error lblk L_ln = Some (VPtr bln 0) -> nth_error mx bln = Some lnblk -> 0 <= pos < n -> nth_error lnblk (Z.to_nat pos) = Some (VPtr p o) ->
+    callx ext cprog fuel (S D) F_lbuf_get [VPtr bl 0; VInt pos] mx = Ok (VPtr p o, mx).
+  Proof.
+    intros Hb Hn Hi Hl Hbl Hp Hc. apply callx_mono. enter F_lbuf_get cf_lbuf_get. xstep.
+    destruct (Z.leb_spec 0 pos) as [_|]; [|lia]. cbn [b2z]. xstep.
+    rewrite (fld_load mx bl lblk L_ln_n _ _ Hb Hn) by reflexivity. xstep. rewrite (int_ok_wrap n Hi).
+    destruct (Z.ltb_spec pos n) as [_|]; [|lia]. cbn [b2z]. xstep.
+    rewrite (fld_load mx bl lblk L_ln _ _ Hb Hl) by reflexivity. xstep.
+    rewrite (fld_load mx bln lnblk (Z.to_nat pos) _ _ Hbl Hc) by lia. reflexivity.
   Qed.
 
   (* ---- what the memory is after ex_region returned: beg, end and xrow hold the model's values, every other block the command looks at is as before *)
@@ -422,6 +438,18 @@ Section Cmds.
       unfold guard_rzl, ret1. rewrite exec_if. cbn [eval]. rewrite eval_region_e. xs. destruct bad; xs; [reflexivity|].
       rewrite eval_zero_e. xs. destruct (ExDefs.ex_zero s b e); xs; [reflexivity|].
       rewrite (eval_len ext fuel _ L m1 bl _ ar_len). xs. rewrite negb_involutive. destruct (ExDefs.slen st =? 0); xs; reflexivity.
+    Qed.
+    (* the same guard for any placement of the locals (ec_lnum keeps msg[128] in front of beg and end) *)
+    Lemma exec_guard_rz_gen kb ke Lg : nth_error Lg 0 = Some (VPtr bs 0) -> nth_error Lg kb = Some (VPtr bb 0) -> nth_error Lg ke = Some (VPtr be 0) ->
+      exec cx fuel (guard_rz kb ke) (mkst Lg mm) = if bad || ExDefs.ex_zero s b e then OReturn (VInt 1) (mkst Lg m1) else ONormal (mkst Lg m1).
+    Proof.
+      intros H0 Hkb Hke. unfold guard_rz, ret1, region_e, zero_e. rewrite exec_if. cbn [eval].
+      rewrite (get_local_ok0 Lg mm 0 _ H0) by discriminate. cbn [bind]. rewrite (get_local_ok0 Lg mm kb _ Hkb) by discriminate. cbn [bind].
+      rewrite (get_local_ok0 Lg mm ke _ Hke) by discriminate. cbn [bind memm locals]. rewrite (ar_call m1 AR). xs. destruct bad; xs; [reflexivity|].
+      rewrite (get_local_ok0 Lg m1 0 _ H0) by discriminate. cbn [bind].
+      rewrite (pure_ld cx kb Lg m1 bb b Hkb (ar_beg m1 AR) (ar_ib m1 AR)). cbn [bind]. rewrite (pure_ld cx ke Lg m1 be e Hke (ar_end m1 AR) (ar_ie m1 AR)). cbn [bind memm locals].
+      rewrite (cx_ext ext fuel _ _ _ _ x_ex_zero_none), Hz.
+      rewrite (tr_ex_zero m1 bs s b e 0 0 ar_str (cp_nn _ _ _ _ _ _ _ Hpre) ar_lit). xs. destruct (ExDefs.ex_zero s b e); xs; reflexivity.
     Qed.
     (* if (ex_region(loc, &beg, &end) && (beg != 0 || end != 0)) return 1;   -- the commands that add text accept address 0 (fix 6c95ca8) *)
     Lemma exec_guard_rn : exec cx fuel guard_rn (mkst L mm)
@@ -594,6 +622,135 @@ Section Cmds.
       unfold clamp_s. rewrite exec_seq, (exec_set_xrow cx fuel _ L6 m5 _ x5 P) by (try assumption; unfold TrExAddr.int_ok in *; lia).
       unfold ret0. rewrite exec_return. reflexivity.
     Qed.
+
+    (* ================================================================ ec_print (p and the address-less command line) *)
+    (* if (!cmd[0] && !loc[0]) if (xrow >= lbuf_len(xb)) return 1;  if (ex_region(..) || ex_zero(..)) return 1;
+       for (i = beg; i < end; i++) ex_print(lbuf_get(xb, i));  xrow = MAX(beg, end - 1);  xoff = 0;  return 0; *)
+    Definition byte0_e (k : nat) : expr := ELoad (Some I8) (EPtrAdd 1 (ELocal k) (EConst 0)).
+    Definition pre_print : stmt :=
+      SIf (EAndAlso (ELNot (byte0_e 1)) (ELNot (byte0_e 0))) (SIf (EBin OGe I32 (ELoad (Some I32) (EGlob G_xrow)) len_e) ret1 SSkip) SSkip.
+    Definition print_call : stmt := SExpr (ECall X_ex_print [ECall F_lbuf_get [xb_e; ELocal 6]]).
+    Definition print_loop : stmt := SFor (Some (EBin OLt I32 (ELocal 6) (ld 5))) (Some (EIncLocal true 6 (Some I32) 1)) print_call.
+    Definition print_xrow : stmt := SExpr (EStore (Some I32) (EGlob G_xrow) (max_e (ld 4) (EBin OSub I32 (ld 5) (EConst 1)))).
+    Definition xoff0 : stmt := SExpr (EStore (Some I32) (EGlob G_xoff) (EConst 0)).
+    Definition print_rest : stmt :=
+      SSeq pre_print (SSeq (guard_rz 4 5) (SSeq (SSeq (SExpr (ESetLocal 6 (ld 4))) print_loop) (SSeq print_xrow (SSeq xoff0 ret0)))).
+    Lemma ec_print_shape : fn_body cf_ec_print = SSeq frame2 print_rest.
+    Proof. reflexivity. Qed.
+
+    Hypothesis Hcmd0 : str_at mm bc cmd.
+    Definition noaddr_nocmd : bool := match cmd, s with [], [] => true | _, _ => false end.
+    Lemma nonul_hd_nil (t : bytes) : nonul t -> (nthb t 0 =? 0)%N = match t with [] => true | _ => false end.
+    Proof. intro H. destruct t as [|c t']; [reflexivity|]. inversion H as [|? ? [Hc0 _] _]; subst. change (nthb (c :: t') 0) with c. destruct (N.eqb_spec c 0); [lia|reflexivity]. Qed.
+    Lemma exec_pre_print : exec cx fuel pre_print (mkst L mm)
+      = if noaddr_nocmd && (ExDefs.slen st <=? ExDefs.xrow st) then OReturn (VInt 1) (mkst L mm) else ONormal (mkst L mm).
+    Proof.
+      destruct Hpre as [A1 A2 A3 A4 A5 A6 A7 A8 A9 A10 A11 A12 A13 A14 A15].
+      unfold pre_print, byte0_e, ret1, noaddr_nocmd. rewrite exec_if. rewrite Hv1. xs.
+      rewrite (load_str mm bc cmd (0 + 1 * 0) 0 Hcmd0 eq_refl ltac:(lia)). xs. rewrite (sc_eqb_0 _ (nthb_lt256 cmd 0 (nonul_lt256 cmd Hncmd))).
+      rewrite (nonul_hd_nil cmd Hncmd). destruct cmd as [|c0 t0]; xs; [|reflexivity].
+      rewrite (load_str mm bs s (0 + 1 * 0) 0 A1 eq_refl ltac:(lia)). xs. rewrite (sc_eqb_0 _ (nthb_lt256 s 0 (nonul_lt256 s A2))).
+      rewrite (nonul_hd_nil s A2). destruct s as [|c1 t1]; xs; [|reflexivity].
+      rewrite (load_cell mm G_xrow _ A4). xs. rewrite (int_ok_wrap _ A12).
+      rewrite <- Hv1. rewrite (eval_len ext fuel _ L mm bl (ExDefs.slen st)) by (exists gbufs, lblk; repeat (split; [assumption|]); assumption).
+      xs. destruct (ExDefs.slen st <=? ExDefs.xrow st); xs; reflexivity.
+    Qed.
+
+    (* the rows are printed in order: the memories pm 0 = m1, pm 1, ... the oracle ex_print leaves, each still showing the buffer and the command's locals *)
+    Variables (bln : nat) (lnblk : block).
+    Record print_view (mx : mem) : Prop := mk_print_view {
+      pv_len : len_view mx bl (ExDefs.slen st);
+      pv_ln : exists lblk', nth_error mx bl = Some lblk' /\ nth_error lblk' L_ln_n = Some (VInt (ExDefs.slen st)) /\ nth_error lblk' L_ln = Some (VPtr bln 0);
+      pv_tab : nth_error mx bln = Some lnblk;
+      pv_beg : nth_error mx bb = Some [VInt b];
+      pv_end : nth_error mx be = Some [VInt e] }.
+    Variable pm : nat -> mem.
+    Local Notation cnt := (Z.to_nat (e - b)).
+    Local Notation Li i := (VPtr bs 0 :: v1 :: v2 :: v3 :: VPtr bb 0 :: VPtr be 0 :: VInt i :: rest').
+    Definition printed : Prop := forall k, (k < cnt)%nat ->
+      exists p o u, nth_error lnblk (Z.to_nat (b + Z.of_nat k)) = Some (VPtr p o) /\ ext X_ex_print [VPtr p o] (pm k) = Ok (u, pm (S k)).
+    Lemma print_loop_ok : 0 <= b -> e <= ExDefs.slen st -> (forall k, (k <= cnt)%nat -> print_view (pm k)) -> printed ->
+      forall j k fuel', (j + k = cnt)%nat -> (j < fuel')%nat ->
+      exec cx fuel' print_loop (mkst (Li (b + Z.of_nat k)) (pm k)) = ONormal (mkst (Li (Z.max (b + Z.of_nat k) e)) (pm cnt)).
+    Proof.
+      intros Hb0 Hen Hview Hpr. pose proof (cp_il _ _ _ _ _ _ _ Hpre) as Il. pose proof (ar_ie m1 AR) as Ie. pose proof (ar_ib m1 AR) as Ib.
+      induction j as [|j IH]; intros k fuel' Hjk Hfu; (destruct fuel' as [|fuel']; [lia|]); unfold print_loop; rewrite exec_for; cbn [eval_opt eval].
+      - assert (Hk : k = cnt) by lia. destruct (Hview k ltac:(lia)) as [V1 V2 V3 V4 V5].
+        rewrite (pure_local cx 6 (Li (b + Z.of_nat k)) (pm k) (b + Z.of_nat k) eq_refl). cbn [bind]. rewrite (pure_ld cx 5 (Li (b + Z.of_nat k)) (pm k) be e eq_refl V5 Ie). xs.
+        destruct (Z.ltb_spec (b + Z.of_nat k) e) as [Hlt|Hge]; [lia|]. xs. rewrite Hk at 2. rewrite Z.max_l by lia. reflexivity.
+      - destruct (Hview k ltac:(lia)) as [V1 V2 V3 V4 V5]. destruct V2 as (lblk' & W1 & W2 & W3).
+        rewrite (pure_local cx 6 (Li (b + Z.of_nat k)) (pm k) (b + Z.of_nat k) eq_refl). cbn [bind]. rewrite (pure_ld cx 5 (Li (b + Z.of_nat k)) (pm k) be e eq_refl V5 Ie). xs.
+        destruct (Z.ltb_spec (b + Z.of_nat k) e) as [Hlt|Hge]; [|lia]. xs.
+        destruct (Hpr k ltac:(lia)) as (p & o & u & Hcell & Hext).
+        unfold print_call. rewrite exec_expr. cbn [eval]. rewrite (eval_xb ext fuel _ _ (pm k) bl (len_xb _ _ _ V1)). cbn [bind]. xs.
+        rewrite (cx_lbuf_get (S (S (S d))) (pm k) bl lblk' (ExDefs.slen st) bln lnblk (b + Z.of_nat k) p o W1 W2 Il W3 V3 ltac:(lia) Hcell). xs.
+        rewrite (cx_ext ext fuel _ _ _ _ x_ex_print_none), Hext. xs.
+        rewrite (int_ok_chk (b + Z.of_nat k + 1)) by (unfold TrExAddr.int_ok in *; lia). xs.
+        replace (b + Z.of_nat k + 1) with (b + Z.of_nat (S k)) by lia. fold print_call. fold print_loop.
+        rewrite (IH (S k) fuel' ltac:(lia) ltac:(lia)). rewrite !Z.max_r by lia. reflexivity.
+    Qed.
+    Lemma xoff_ne_xrow : G_xoff <> G_xrow.
+    Proof. vm_compute. discriminate. Qed.
+    Lemma print_body_pre : noaddr_nocmd && (ExDefs.slen st <=? ExDefs.xrow st) = true ->
+      exec cx fuel print_rest (mkst L mm) = OReturn (VInt 1) (mkst L mm).
+    Proof. intro H. unfold print_rest. rewrite exec_seq, exec_pre_print, H. reflexivity. Qed.
+    Lemma print_body_fail : noaddr_nocmd && (ExDefs.slen st <=? ExDefs.xrow st) = false -> bad || ExDefs.ex_zero s b e = true ->
+      exec cx fuel print_rest (mkst L mm) = OReturn (VInt 1) (mkst L m1).
+    Proof. intros H G. unfold print_rest. rewrite exec_seq, exec_pre_print, H. rewrite exec_seq, exec_guard_rz, G. reflexivity. Qed.
+    Lemma print_body_ok x5 y5 : noaddr_nocmd && (ExDefs.slen st <=? ExDefs.xrow st) = false -> bad || ExDefs.ex_zero s b e = false ->
+      pm O = m1 -> (forall k, (k <= cnt)%nat -> print_view (pm k)) -> printed ->
+      cell_at (pm cnt) G_xrow x5 -> cell_at (pm cnt) G_xoff y5 -> (cnt < fuel)%nat ->
+      exec cx fuel print_rest (mkst L mm)
+      = OReturn (VInt 0) (mkst (Li (Z.max b e)) (upd (upd (pm cnt) G_xrow [VInt (Z.max b (e - 1))]) G_xoff [VInt 0])).
+    Proof.
+      intros H G H0 Hview Hpr Hx5 Hy5 Hfu. pose proof (ar_ie m1 AR) as Ie. pose proof (ar_ib m1 AR) as Ib.
+      assert (Hbad : bad = false) by (destruct bad; [discriminate G|reflexivity]).
+      destruct (ar_bounds ltac:(rewrite Hbad; reflexivity)) as ((B1 & B2) & B3).
+      unfold print_rest. rewrite exec_seq, exec_pre_print, H. rewrite exec_seq, exec_guard_rz, G.
+      rewrite exec_seq, exec_seq, exec_expr. cbn [eval]. rewrite (pure_beg m1 (ar_beg m1 AR)). cbn [bind]. rewrite Hrest. cbn [set_local locals set_nth memm bind].
+      assert (EL : exec cx fuel print_loop (mkst (Li b) m1) = ONormal (mkst (Li (Z.max b e)) (pm cnt))).
+      { pose proof (print_loop_ok B1 B3 Hview Hpr cnt O fuel ltac:(lia) Hfu) as E. rewrite H0 in E. cbn [Z.of_nat] in E. rewrite Z.add_0_r in E. exact E. }
+      rewrite EL.
+      destruct (Hview cnt ltac:(lia)) as [V1 V2 V3 V4 V5].
+      assert (P : pure cx (max_e (ld 4) (EBin OSub I32 (ld 5) (EConst 1))) (mkst (Li (Z.max b e)) (pm cnt)) (Z.max b (e - 1))).
+      { apply pure_max; [exact (pure_ld cx 4 (Li (Z.max b e)) (pm cnt) bb b eq_refl V4 Ib)|].
+        apply pure_sub; [exact (pure_ld cx 5 (Li (Z.max b e)) (pm cnt) be e eq_refl V5 Ie)|apply pure_const|unfold TrExAddr.int_ok in *; lia]. }
+      unfold print_xrow. rewrite exec_seq, (exec_set_xrow cx fuel _ _ (pm cnt) _ x5 P) by (try assumption; unfold TrExAddr.int_ok in *; lia).
+      assert (Lx : (G_xrow < length (pm cnt))%nat) by (apply nth_error_Some; unfold cell_at in Hx5; congruence).
+      pose proof (cell_at_upd_other (pm cnt) G_xrow [VInt (Z.max b (e - 1))] G_xoff y5 Lx xoff_ne_xrow Hy5) as Hy6.
+      unfold xoff0. rewrite exec_seq, exec_expr. xs. rewrite (store_cell _ G_xoff y5 _ Hy6). xs. unfold ret0. rewrite exec_return. reflexivity.
+    Qed.
+
+    (* ================================================================ ec_mark (k): lbuf_mark(xb, (unsigned char) arg[0], end - 1, 0) *)
+    Definition mark_s : stmt := SExpr (ECall F_lbuf_mark [xb_e; ECast I32 (ECast U8 (arg_byte 0)); EBin OSub I32 (ld 5) (EConst 1); EConst 0]).
+    Definition mark_rest : stmt := SSeq (guard_rz 4 5) (SSeq mark_s ret0).
+    Lemma ec_mark_shape : fn_body cf_ec_mark = SSeq frame2 mark_rest.
+    Proof. reflexivity. Qed.
+    Lemma mark_body_fail : bad || ExDefs.ex_zero s b e = true -> exec cx fuel mark_rest (mkst L mm) = OReturn (VInt 1) (mkst L m1).
+    Proof. intro G. unfold mark_rest. rewrite exec_seq, exec_guard_rz, G. reflexivity. Qed.
+    Lemma mark_body_ok : bad || ExDefs.ex_zero s b e = false -> length lblk = LBUF_CELLS ->
+      let blk' := mark_blk lblk (Z.of_N (hd0 arg)) (e - 1) 0 in
+      exec cx fuel mark_rest (mkst L mm) = OReturn (VInt 0) (mkst L (if 0 <=? midx (hd0 arg) then upd m1 bl blk' else m1)) /\
+      marks_rep blk' (ExDefs.marks (ExDefs.lbuf_mark (ExDefs.lb st) (hd0 arg) (e - 1))).
+    Proof.
+      clear Nbc Hcmd Hcmd0 Hncmd Hv1 Hrest Hv3 pm bln lnblk.
+      intros G Hlen blk'. pose proof (ar_ie m1 AR) as Ie.
+      assert (Hbad : bad = false) by (destruct bad; [discriminate G|reflexivity]).
+      destruct (ar_bounds ltac:(rewrite Hbad; reflexivity)) as ((B1 & B2) & B3).
+      assert (Hl1 : nth_error m1 bl = Some lblk).
+      { destruct Hdist as (D1 & D2 & D3 & D4 & D5 & D6 & D7 & D8 & D9 & D10 & D11).
+        apply ar_old; [exact (cp_l _ _ _ _ _ _ _ Hpre)| | |]; apply not_eq_sym; assumption. }
+      assert (Hc : (hd0 arg < 256)%N) by (replace (hd0 arg) with (nthb arg 0) by (destruct arg; reflexivity); apply nthb_lt256, nonul_lt256, Hnarg).
+      destruct (tr_lbuf_mark_model m1 bl lblk (ExDefs.lb st) (hd0 arg) (e - 1) 0 (S (S d)) fuel Hl1 Hlen (cp_mr _ _ _ _ _ _ _ Hpre) Hc
+                  ltac:(unfold i32, TrExAddr.int_ok in *; lia) ltac:(unfold i32; lia)) as (Ecall & Hrep).
+      split; [|exact Hrep].
+      unfold mark_rest. rewrite exec_seq, exec_guard_rz, G. unfold mark_s. rewrite exec_seq, exec_expr. cbn [eval].
+      rewrite (eval_xb ext fuel _ L m1 bl (len_xb _ _ _ ar_len)). cbn [bind]. unfold arg_byte. rewrite Hv2. xs.
+      rewrite (load_str m1 ba arg (0 + 1 * 0) 0 Harg eq_refl ltac:(lia)). xs.
+      replace (nthb arg 0) with (hd0 arg) by (destruct arg; reflexivity). rewrite (wrap_byte_chain _ Hc).
+      rewrite <- Hv2. rewrite (pure_end m1 (ar_end m1 AR)). xs. rewrite (int_ok_chk (e - 1)) by (unfold TrExAddr.int_ok in *; lia). xs.
+      rewrite (callx_mono ext _ _ _ _ _ _ _ Ecall). xs. unfold ret0. rewrite exec_return. reflexivity.
+    Qed.
   End AfterRegion.
 
   (* ================================================================ the commands as functions of cprog *)
@@ -627,6 +784,65 @@ Section Cmds.
     rewrite callx_S. change (nth_error cprog F_ec_insert) with (Some cf_ec_insert). cbv beta iota.
     change (fn_nparams cf_ec_insert) with 4%nat. change (fn_nlocals cf_ec_insert) with 7%nat. rewrite ec_insert_shape.
     cbn [length Nat.eqb Nat.sub repeat app]. rewrite exec_seq, exec_frame2. reflexivity.
+  Qed.
+
+  Definition ec_print_run D (a0 a1 a2 a3 : val) (m : mem) (ve : val) : res (val * mem) :=
+    run_of (exec (callx ext cprog fuel D) fuel print_rest (mkst [a0; a1; a2; a3; VPtr (length m) 0; VPtr (S (length m)) 0; VUndef] (frame_mem m VUndef ve))).
+  Lemma ec_print_entry D a0 a1 a2 a3 m : callx ext cprog fuel (S D) F_ec_print [a0; a1; a2; a3] m = ec_print_run D a0 a1 a2 a3 m VUndef.
+  Proof.
+    rewrite callx_S. change (nth_error cprog F_ec_print) with (Some cf_ec_print). cbv beta iota.
+    change (fn_nparams cf_ec_print) with 4%nat. change (fn_nlocals cf_ec_print) with 7%nat. rewrite ec_print_shape.
+    cbn [length Nat.eqb Nat.sub repeat app]. rewrite exec_seq, exec_frame2. reflexivity.
+  Qed.
+
+  Definition ec_mark_run D (a0 a1 a2 a3 : val) (m : mem) (ve : val) : res (val * mem) :=
+    run_of (exec (callx ext cprog fuel D) fuel mark_rest (mkst [a0; a1; a2; a3; VPtr (length m) 0; VPtr (S (length m)) 0] (frame_mem m VUndef ve))).
+  Lemma ec_mark_entry D a0 a1 a2 a3 m : callx ext cprog fuel (S D) F_ec_mark [a0; a1; a2; a3] m = ec_mark_run D a0 a1 a2 a3 m VUndef.
+  Proof.
+    rewrite callx_S. change (nth_error cprog F_ec_mark) with (Some cf_ec_mark). cbv beta iota.
+    change (fn_nparams cf_ec_mark) with 4%nat. change (fn_nlocals cf_ec_mark) with 6%nat. rewrite ec_mark_shape.
+    cbn [length Nat.eqb Nat.sub repeat app]. rewrite exec_seq, exec_frame2. reflexivity.
+  Qed.
+
+  (* ---- ec_null in ex mode (xvis == 0): xrow = xrow + 1 < lbuf_len(xb) ? xrow + 1 : xrow; return ec_print(loc, cmd, arg, txt); *)
+  Definition null_ex : stmt :=
+    SSeq (SExpr (EStore (Some I32) (EGlob G_xrow) (ECond (EBin OLt I32 (EBin OAdd I32 xrow_ld (EConst 1)) len_e) (EBin OAdd I32 xrow_ld (EConst 1)) xrow_ld)))
+         (SReturn (Some (ECall F_ec_print [ELocal 0; ELocal 1; ELocal 2; ELocal 3]))).
+  Definition null_vis : stmt := SSeq (SIf (region_e 4 5) ret1 SSkip) (SSeq print_xrow (SSeq xoff0 ret0)).
+  Definition null_rest : stmt := SSeq (SIf (ELNot (ELoad (Some I32) (EGlob G_xvis))) null_ex SSkip) null_vis.
+  Lemma ec_null_shape : fn_body cf_ec_null = SSeq frame2 null_rest.
+  Proof. reflexivity. Qed.
+  Lemma eval_call4 call f a0 a1 a2 a3 rest mx : a0 <> VUndef -> a1 <> VUndef -> a2 <> VUndef -> a3 <> VUndef ->
+    eval call (ECall f [ELocal 0; ELocal 1; ELocal 2; ELocal 3]) (mkst (a0 :: a1 :: a2 :: a3 :: rest) mx)
+    = match call f [a0; a1; a2; a3] mx with Ok (v, m') => Ok (v, mkst (a0 :: a1 :: a2 :: a3 :: rest) m') | Err x => Err x end.
+  Proof.
+    intros N0 N1 N2 N3. cbn [eval]. unfold get_local. cbn [locals nth_error bind].
+    destruct a0; try congruence; destruct a1; try congruence; destruct a2; try congruence; destruct a3; try congruence; cbn [bind memm locals];
+      match goal with |- context [call f ?a ?mm] => destruct (call f a mm) as [[v m']|err] end; reflexivity.
+  Qed.
+  Lemma len_view_le m mm bl n : mem_le m mm -> len_view m bl n -> len_view mm bl n.
+  Proof. intros H (g & l & H1 & H2 & H3 & H4 & H5). exists g, l. split; [apply H; exact H1|]. split; [exact H2|]. split; [apply H; exact H3|]. split; assumption. Qed.
+  (* the null command outside visual mode IS the print command run on the memory where the current line went one line down (if there is one):
+     the model's ec_null = ec_print on set_xrow s (if xrow s + 1 <? slen s then xrow s + 1 else xrow s), by definition *)
+  Theorem tr_ec_null_ex D a0 a1 a2 a3 m x n bl : cell_at m G_xvis 0 -> cell_at m G_xrow x -> iok x -> iok (x + 1) -> len_view m bl n ->
+    a0 <> VUndef -> a1 <> VUndef -> a2 <> VUndef -> a3 <> VUndef ->
+    callx ext cprog fuel (S (S D)) F_ec_null [a0; a1; a2; a3] m
+    = callx ext cprog fuel (S D) F_ec_print [a0; a1; a2; a3] (upd (frame_mem m VUndef VUndef) G_xrow [VInt (if x + 1 <? n then x + 1 else x)]).
+  Proof.
+    intros Hvis Hx Ix Ix1 Hl N0 N1 N2 N3. set (mf := frame_mem m VUndef VUndef).
+    pose proof (mem_le_frame m VUndef VUndef) as Hle. pose proof (len_view_le m mf bl n Hle Hl) as Hlf.
+    assert (Hxf : cell_at mf G_xrow x) by (apply Hle; exact Hx). assert (Hvf : cell_at mf G_xvis 0) by (apply Hle; exact Hvis).
+    rewrite callx_S. change (nth_error cprog F_ec_null) with (Some cf_ec_null). cbv beta iota.
+    change (fn_nparams cf_ec_null) with 4%nat. change (fn_nlocals cf_ec_null) with 6%nat. rewrite ec_null_shape.
+    cbn [length Nat.eqb Nat.sub repeat app]. rewrite exec_seq, exec_frame2. fold mf.
+    unfold null_rest. rewrite exec_seq, exec_if. xs. rewrite (load_cell mf G_xvis 0 Hvf). xs.
+    unfold null_ex. rewrite exec_seq, exec_expr. unfold xrow_ld. xs. rewrite (load_cell mf G_xrow x Hxf). xs. rewrite (int_ok_wrap _ Ix), (int_ok_chk _ Ix1). xs.
+    rewrite (eval_len ext fuel D _ mf bl n Hlf). xs.
+    assert (Est : forall z, iok z -> store mf G_xrow 0 (VInt z) = Ok (upd mf G_xrow [VInt z])) by (intros z _; exact (store_cell mf G_xrow x z Hxf)).
+    destruct (x + 1 <? n); xs; rewrite ?(load_cell mf G_xrow x Hxf); xs; rewrite ?(int_ok_wrap _ Ix), ?(int_ok_chk _ Ix1); xs;
+      rewrite ?(int_ok_wrap _ Ix1), ?(int_ok_wrap _ Ix), Est by assumption; cbn [bind locals memm];
+      rewrite exec_return, (eval_call4 _ F_ec_print a0 a1 a2 a3 _ _ N0 N1 N2 N3);
+      match goal with |- context [callx ext cprog fuel (S D) F_ec_print ?a ?mm] => destruct (callx ext cprog fuel (S D) F_ec_print a mm) as [[v m']|err] end; reflexivity.
   Qed.
 
   (* the context of every command theorem: the memory m at the call, the model state st it represents, the address string *)
@@ -802,7 +1018,174 @@ Section Cmds.
                    ltac:(unfold TrExAddr.int_ok in *; lia) ltac:(fold b'; unfold TrExAddr.int_ok in *; lia) He' Hfit Hn2 Hed He5 Hl5 Hx5).
         reflexivity.
     Qed.
+
+    (* ---- ec_print *)
+    Lemma print_view_iff bl' s' bb' be' bln lnblk mx :
+      print_view rvalid rfind st bl' s' bb' be' bln lnblk mx <->
+      (len_view mx bl' (ExDefs.slen st) /\
+       (exists lblk', nth_error mx bl' = Some lblk' /\ nth_error lblk' L_ln_n = Some (VInt (ExDefs.slen st)) /\ nth_error lblk' L_ln = Some (VPtr bln 0)) /\
+       nth_error mx bln = Some lnblk /\
+       nth_error mx bb' = Some [VInt (snd (fst (fst (ExDefs.ex_region rvalid rfind s' st))))] /\
+       nth_error mx be' = Some [VInt (snd (fst (ExDefs.ex_region rvalid rfind s' st)))]).
+    Proof. split; [intros [A1 A2 A3 A4 A5]; repeat (split; [assumption|]); assumption|intros (A1 & A2 & A3 & A4 & A5); constructor; assumption]. Qed.
+    Lemma printed_iff s' lnblk pm : printed rvalid rfind st s' lnblk pm <->
+      (let b := snd (fst (fst (ExDefs.ex_region rvalid rfind s' st))) in let e := snd (fst (ExDefs.ex_region rvalid rfind s' st)) in
+       forall k, (k < Z.to_nat (e - b))%nat ->
+       exists p o u, nth_error lnblk (Z.to_nat (b + Z.of_nat k)) = Some (VPtr p o) /\ ext X_ex_print [VPtr p o] (pm k) = Ok (u, pm (S k))).
+    Proof. split; intro H; exact H. Qed.
+    Lemma model_print cmd : ExDefs.ec_print rvalid rfind s cmd st =
+      if noaddr_nocmd s cmd && (ExDefs.slen st <=? ExDefs.xrow st) then (st, 1)
+      else if bad || ExDefs.ex_zero s b e then (s1, 1)
+      else (ExDefs.set_xrow (ExDefs.print_lines (firstn (Z.to_nat (e - b)) (skipn (Z.to_nat b) (ExDefs.lns (ExDefs.lb s1)))) s1) (Z.max b (e - 1)), 0).
+    Proof. unfold ExDefs.ec_print, noaddr_nocmd. destruct R as [[[bad0 b0] e0'] s0]. reflexivity. Qed.
+    (* p (and the command line that is only an address).  Without command name and address: 1 when the current line is not a line.  Then
+       ex_region, ex_zero (fix 6c95ca8).  Then ex_print(lbuf_get(xb, i)) for i = beg, .., end - 1 IN THIS ORDER: pm 0 = the memory after ex_region,
+       pm (k + 1) = the memory the oracle leaves when called with row beg + k's pointer lb->ln[beg + k] on pm k; each pm k still shows the buffer
+       (print_view: length, the table lb->ln = block bln = lnblk) and the locals beg and end; xrow = MAX(beg, end - 1), xoff = 0 *)
+    Theorem tr_ec_print bc cmd varg vtxt bln lnblk : str_at m bc cmd -> nonul cmd -> bc <> G_xrow ->
+      nth_error lblk L_ln = Some (VPtr bln 0) -> nth_error m bln = Some lnblk -> bln <> G_xrow ->
+      let M := ExDefs.ec_print rvalid rfind s cmd st in
+      let early := noaddr_nocmd s cmd && (ExDefs.slen st <=? ExDefs.xrow st) in
+      let cnt := Z.to_nat (e - b) in
+      (early = true -> ec_print_run D (VPtr bs 0) (VPtr bc 0) varg vtxt m (VInt e0) = Ok (VInt 1, mf) /\ M = (st, 1)) /\
+      exists m1, callx ext cprog fuel D F_ex_region [VPtr bs 0; VPtr bb 0; VPtr be 0] mf = Ok (VInt (b2z bad), m1) /\
+        print_view rvalid rfind st bl s bb be bln lnblk m1 /\
+        (early = false -> snd M <> 0 -> ec_print_run D (VPtr bs 0) (VPtr bc 0) varg vtxt m (VInt e0) = Ok (VInt (snd M), m1) /\
+                       snd M = 1 /\ cell_at m1 G_xrow (ExDefs.xrow (fst M)) /\ ExDefs.lb (fst M) = ExDefs.lb st) /\
+        (early = false -> snd M = 0 -> ExDefs.xrow (fst M) = Z.max b (e - 1) /\ forall pm x5 y5,
+           pm O = m1 -> (forall k, (1 <= k <= cnt)%nat -> print_view rvalid rfind st bl s bb be bln lnblk (pm k)) ->
+           printed rvalid rfind st s lnblk pm -> cell_at (pm cnt) G_xrow x5 -> cell_at (pm cnt) G_xoff y5 -> (cnt < fuel)%nat ->
+           ec_print_run D (VPtr bs 0) (VPtr bc 0) varg vtxt m (VInt e0)
+           = Ok (VInt 0, upd (upd (pm cnt) G_xrow [VInt (ExDefs.xrow (fst M))]) G_xoff [VInt 0])).
+    Proof.
+      intros Hcmd Hncmd Nbc Hln Htab Nbln M early cnt. destruct final_region as (m1 & AR).
+      pose proof (pre_le _ _ _ _ _ _ _ _ (mem_le_frame m VUndef (VInt e0)) Hpre) as Pf.
+      assert (Es : ExDefs.slen s1 = ExDefs.slen st) by (rewrite (ar_st _ _ _ _ _ _ _ _ _ _ AR); reflexivity).
+      assert (El : ExDefs.lb s1 = ExDefs.lb st) by (rewrite (ar_st _ _ _ _ _ _ _ _ _ _ AR); reflexivity).
+      assert (Lbc : (bc < length m)%nat) by (apply nth_error_Some; unfold str_at in Hcmd; congruence).
+      pose proof (final_old m1 bc _ AR Hcmd Nbc) as Hcmd1. pose proof (mem_le_frame m VUndef (VInt e0) _ _ Hcmd) as Hcmdf.
+      assert (Nbc' : bc <> bb /\ bc <> be) by lia.
+      assert (PV1 : print_view rvalid rfind st bl s bb be bln lnblk m1).
+      { constructor.
+        - exact (ar_len rvalid rfind st mf bs bl s gbufs lblk bb be d Pf final_dist m1 AR).
+        - exists lblk. split; [exact (final_old m1 bl _ AR (cp_l _ _ _ _ _ _ _ Hpre) (not_eq_sym Nbl))|]. split; [exact (cp_n _ _ _ _ _ _ _ Hpre)|exact Hln].
+        - exact (final_old m1 bln _ AR Htab Nbln).
+        - exact (ar_beg _ _ _ _ _ _ _ _ _ _ AR).
+        - exact (ar_end _ _ _ _ _ _ _ _ _ _ AR). }
+      unfold M. rewrite (model_print cmd). fold early. unfold ec_print_run. split.
+      - intro H. rewrite H. split; [|reflexivity].
+        rewrite (print_body_pre st mf bs bl s gbufs lblk bb be d Pf Hf m1 (VPtr bc 0) varg vtxt [VUndef] bc cmd eq_refl Hcmd1 Hncmd Nbc' Hcmdf H). reflexivity.
+      - exists m1. split; [exact (ar_call _ _ _ _ _ _ _ _ _ _ AR)|]. split; [exact PV1|].
+        destruct early eqn:Hearly; [split; intro H; discriminate H|].
+        destruct (bad || ExDefs.ex_zero s b e) eqn:G; cbn [fst snd].
+        + split; [|intros _ H; discriminate H]. intros _ _.
+          rewrite (print_body_fail rvalid rfind st mf bs bl s gbufs lblk bb be VUndef e0 d Pf (frame_beg m _ _) (frame_end m _ _) final_dist Hf Hz m1 AR
+                     (VPtr bc 0) varg vtxt [VUndef] bc cmd eq_refl Hcmd1 Hncmd Nbc' Hcmdf Hearly G).
+          split; [reflexivity|]. split; [reflexivity|]. split; [exact (ar_xrow _ _ _ _ _ _ _ _ _ _ AR)|exact El].
+        + split; [intros _ H; exfalso; apply H; reflexivity|]. intros _ _. split; [reflexivity|].
+          intros pm x5 y5 H0 Hview Hpr Hx5 Hy5 Hfu.
+          rewrite (print_body_ok rvalid rfind st mf bs bl s gbufs lblk bb be VUndef e0 d Pf (frame_beg m _ _) (frame_end m _ _) final_dist Hf Hz m1 AR
+                     (VPtr bc 0) varg vtxt [VUndef] bc cmd VUndef [] eq_refl eq_refl Hcmd1 Hncmd Nbc' Hcmdf bln lnblk pm x5 y5 Hearly G H0
+                     ltac:(intros k Hk; destruct k as [|k]; [rewrite H0; exact PV1|apply Hview; fold cnt in Hk; lia]) Hpr Hx5 Hy5 Hfu).
+          reflexivity.
+    Qed.
+
+    (* ---- ec_mark *)
+    Lemma model_mark arg : ExDefs.ec_mark rvalid rfind s arg st =
+      if bad || ExDefs.ex_zero s b e then (s1, 1) else (ExDefs.set_lb s1 (ExDefs.lbuf_mark (ExDefs.lb s1) (hd0 arg) (e - 1)), 0).
+    Proof. unfold ExDefs.ec_mark. destruct R as [[[bad0 b0] e0'] s0]. reflexivity. Qed.
+    (* k: no oracle besides ex_zero: ex_region, ex_zero (fix 6c95ca8), then the TRANSLATED lbuf_mark(xb, arg[0], end - 1, 0) (TrLbufMarks): the struct lbuf
+       afterwards holds the mark rows of the model's state after the model's ec_mark *)
+    Theorem tr_ec_mark vcmd ba arg vtxt : str_at m ba arg -> nonul arg -> ba <> G_xrow -> length lblk = LBUF_CELLS ->
+      let M := ExDefs.ec_mark rvalid rfind s arg st in
+      let blk' := mark_blk lblk (Z.of_N (hd0 arg)) (e - 1) 0 in
+      exists m1, callx ext cprog fuel D F_ex_region [VPtr bs 0; VPtr bb 0; VPtr be 0] mf = Ok (VInt (b2z bad), m1) /\
+        cell_at m1 G_xrow (ExDefs.xrow (fst M)) /\
+        (snd M <> 0 -> ec_mark_run D (VPtr bs 0) vcmd (VPtr ba 0) vtxt m (VInt e0) = Ok (VInt (snd M), m1) /\ snd M = 1 /\ ExDefs.lb (fst M) = ExDefs.lb st) /\
+        (snd M = 0 -> ec_mark_run D (VPtr bs 0) vcmd (VPtr ba 0) vtxt m (VInt e0) = Ok (VInt 0, if 0 <=? midx (hd0 arg) then upd m1 bl blk' else m1) /\
+                      marks_rep blk' (ExDefs.marks (ExDefs.lb (fst M)))).
+    Proof.
+      intros Harg Hnarg Nba Hlen M blk'. destruct final_region as (m1 & AR). exists m1. split; [exact (ar_call _ _ _ _ _ _ _ _ _ _ AR)|].
+      pose proof (pre_le _ _ _ _ _ _ _ _ (mem_le_frame m VUndef (VInt e0)) Hpre) as Pf.
+      assert (El : ExDefs.lb s1 = ExDefs.lb st) by (rewrite (ar_st _ _ _ _ _ _ _ _ _ _ AR); reflexivity).
+      unfold M. rewrite (model_mark arg). unfold ec_mark_run.
+      destruct (bad || ExDefs.ex_zero s b e) eqn:G; cbn [fst snd].
+      - split; [exact (ar_xrow _ _ _ _ _ _ _ _ _ _ AR)|]. split; [|intro H; discriminate H]. intros _.
+        rewrite (mark_body_fail rvalid rfind st mf bs bl s gbufs lblk bb be VUndef e0 d Pf (frame_beg m _ _) (frame_end m _ _) final_dist Hf Hz m1 AR vcmd (VPtr ba 0) vtxt [] G).
+        split; [reflexivity|]. split; [reflexivity|exact El].
+      - split; [exact (ar_xrow _ _ _ _ _ _ _ _ _ _ AR)|]. split; [intro H; exfalso; apply H; reflexivity|]. intros _.
+        destruct (mark_body_ok rvalid rfind st mf bs bl s gbufs lblk bb be VUndef e0 d Pf (frame_beg m _ _) (frame_end m _ _) final_dist Hf Hz m1 AR
+                    vcmd (VPtr ba 0) vtxt [] ba arg eq_refl (final_old m1 ba _ AR Harg Nba) Hnarg G Hlen) as (E & Hrep).
+        rewrite E. split; [reflexivity|]. cbn [ExDefs.lb ExDefs.set_lb]. rewrite El. exact Hrep.
+    Qed.
   End Final.
+
+  (* ================================================================ ec_lnum (=): sprintf(msg, "%d\n", end); ex_print(msg); return 0; *)
+  (* the frame: char msg[128] (block length m), then beg and end *)
+  Definition lnum_rest : stmt :=
+    SSeq (guard_rz 5 6) (SSeq (SExpr (ECall X_sprintf [ELocal 4; EGlob G_lit_25640a_3; ld 6])) (SSeq (SExpr (ECall X_ex_print [ELocal 4])) ret0)).
+  Lemma ec_lnum_shape : fn_body cf_ec_lnum =
+    SSeq (SExpr (ESetLocal 4 (EBuiltin BMalloc [EConst 128])))
+         (SSeq (SSeq (SExpr (ESetLocal 5 (EBuiltin BMalloc [EConst 1]))) (SExpr (ESetLocal 6 (EBuiltin BMalloc [EConst 1])))) lnum_rest).
+  Proof. reflexivity. Qed.
+  Definition msg_mem (m : mem) : mem := m ++ [repeat VUndef 128].
+  Definition ec_lnum_run D (a0 a1 a2 a3 : val) (m : mem) (ve : val) : res (val * mem) :=
+    run_of (exec (callx ext cprog fuel D) fuel lnum_rest
+              (mkst [a0; a1; a2; a3; VPtr (length m) 0; VPtr (S (length m)) 0; VPtr (S (S (length m))) 0] (frame_mem (msg_mem m) VUndef ve))).
+  Lemma ec_lnum_entry D a0 a1 a2 a3 m : callx ext cprog fuel (S D) F_ec_lnum [a0; a1; a2; a3] m = ec_lnum_run D a0 a1 a2 a3 m VUndef.
+  Proof.
+    rewrite callx_S. change (nth_error cprog F_ec_lnum) with (Some cf_ec_lnum). cbv beta iota.
+    change (fn_nparams cf_ec_lnum) with 4%nat. change (fn_nlocals cf_ec_lnum) with 7%nat. rewrite ec_lnum_shape.
+    cbn [length Nat.eqb Nat.sub repeat app]. rewrite exec_seq, exec_expr. xcbn. rewrite malloc_ok by lia. xcbn.
+    rewrite exec_seq, exec_seq, exec_expr. xcbn. rewrite malloc_ok by lia. xcbn. rewrite exec_expr. xcbn. rewrite malloc_ok by lia. xcbn.
+    change (repeat VUndef (Z.to_nat 1)) with [VUndef]. change (Z.to_nat 128) with 128%nat.
+    unfold ec_lnum_run, frame_mem, msg_mem. rewrite !app_length. cbn [length]. rewrite !Nat.add_1_r. reflexivity.
+  Qed.
+  (* =: ex_region, ex_zero (fix 6c95ca8), then sprintf(msg, "%d\n", end) with the model's number (the model prints ONum end) and ex_print(msg) on the memory
+     sprintf left, with the same buffer *)
+  Theorem tr_ec_lnum rvalid rfind (st : ExDefs.st) m bs bl s gbufs lblk e0 d vcmd varg vtxt :
+    cmd_pre m st bs bl s gbufs lblk -> G_xrow <> bs -> G_xrow <> bl -> zero_linked ext -> iok e0 -> (2 * S (length s) <= fuel)%nat ->
+    let M := ExDefs.ec_lnum rvalid rfind s st in
+    let R := ExDefs.ex_region rvalid rfind s st in
+    let bmsg := length m in let bb := S (length m) in let be := S (S (length m)) in let D := S (S (S (S d))) in
+    exists m1, callx ext cprog fuel D F_ex_region [VPtr bs 0; VPtr bb 0; VPtr be 0] (frame_mem (msg_mem m) VUndef (VInt e0))
+               = Ok (VInt (b2z (fst (fst (fst R)))), m1) /\
+      cell_at m1 G_xrow (ExDefs.xrow (fst M)) /\ ExDefs.lb (fst M) = ExDefs.lb st /\
+      (snd M <> 0 -> ec_lnum_run D (VPtr bs 0) vcmd varg vtxt m (VInt e0) = Ok (VInt (snd M), m1) /\ snd M = 1 /\ ExDefs.out (fst M) = ExDefs.out st) /\
+      (snd M = 0 -> ExDefs.out (fst M) = ExDefs.ONum (snd (fst R)) :: ExDefs.out st /\ forall u m2 u' m3,
+         ext X_sprintf [VPtr bmsg 0; VPtr G_lit_25640a_3 0; VInt (snd (fst R))] m1 = Ok (u, m2) ->
+         ext X_ex_print [VPtr bmsg 0] m2 = Ok (u', m3) ->
+         ec_lnum_run D (VPtr bs 0) vcmd varg vtxt m (VInt e0) = Ok (VInt 0, m3)).
+  Proof.
+    intros Hpre Nbs Nbl Hz He0 Hf M R bmsg bb be D. subst D.
+    pose proof (pre_le _ _ _ _ _ _ _ _ (mem_le_app m (repeat VUndef 128)) Hpre) as Pm. fold (msg_mem m) in Pm.
+    assert (Lm : length (msg_mem m) = S (length m)) by (unfold msg_mem; rewrite app_length; cbn; lia).
+    destruct (final_region rvalid rfind st (msg_mem m) bs bl s gbufs lblk e0 d Pm Nbs Nbl He0 Hf) as (m1 & AR). rewrite Lm in AR.
+    exists m1. split; [exact (ar_call _ _ _ _ _ _ _ _ _ _ AR)|].
+    pose proof (pre_le _ _ _ _ _ _ _ _ (mem_le_frame (msg_mem m) VUndef (VInt e0)) Pm) as Pf.
+    pose proof (final_dist st (msg_mem m) bs bl s gbufs lblk Pm Nbs Nbl) as Hdist. rewrite Lm in Hdist.
+    pose proof (frame_beg (msg_mem m) VUndef (VInt e0)) as Hbeg. pose proof (frame_end (msg_mem m) VUndef (VInt e0)) as Hend. rewrite Lm in Hbeg, Hend.
+    assert (El : ExDefs.lb (snd R) = ExDefs.lb st) by (unfold R; rewrite (ar_st _ _ _ _ _ _ _ _ _ _ AR); reflexivity).
+    assert (Eo : ExDefs.out (snd R) = ExDefs.out st) by (unfold R; rewrite (ar_st _ _ _ _ _ _ _ _ _ _ AR); reflexivity).
+    pose proof (ar_xrow _ _ _ _ _ _ _ _ _ _ AR) as Hx1. pose proof (ar_end _ _ _ _ _ _ _ _ _ _ AR) as He1. pose proof (ar_ie _ _ _ _ _ _ _ _ _ _ AR) as Ie1.
+    set (L := [VPtr bs 0; vcmd; varg; vtxt; VPtr bmsg 0; VPtr bb 0; VPtr be 0]).
+    pose proof (exec_guard_rz_gen rvalid rfind st _ bs bl s gbufs lblk bb be VUndef e0 d Pf Hbeg Hend Hdist Hf Hz m1 AR 5 6 L eq_refl eq_refl eq_refl) as Hg.
+    unfold M, ExDefs.ec_lnum, ec_lnum_run. fold R.
+    change (mkst [VPtr bs 0; vcmd; varg; vtxt; VPtr (length m) 0; VPtr (S (length m)) 0; VPtr (S (S (length m))) 0] (frame_mem (msg_mem m) VUndef (VInt e0)))
+      with (mkst L (frame_mem (msg_mem m) VUndef (VInt e0))).
+    unfold lnum_rest. rewrite exec_seq, Hg. fold R in Hx1, He1, Ie1 |- *.
+    destruct R as [[[bad0 b1] e1] s0] eqn:ER. cbn [fst snd] in *.
+    destruct (bad0 || ExDefs.ex_zero s b1 e1) eqn:G; cbn [fst snd run_of].
+    - split; [exact Hx1|]. split; [exact El|]. split; [|intro H; discriminate H]. intros _. split; [reflexivity|]. split; [reflexivity|exact Eo].
+    - split; [exact Hx1|]. split; [exact El|]. split; [intro H; exfalso; apply H; reflexivity|]. intros _.
+      split; [cbn [ExDefs.out ExDefs.emit]; rewrite Eo; reflexivity|]. intros u m2 u' m3 Hsp Hpr.
+      rewrite exec_seq, exec_expr. cbn [eval]. rewrite (get_local_ok0 L m1 4 (VPtr bmsg 0) eq_refl) by discriminate. cbn [bind].
+      rewrite (pure_ld (callx ext cprog fuel (S (S (S (S d))))) 6 L m1 be e1 eq_refl He1 Ie1). cbn [bind memm locals].
+      rewrite (cx_ext ext fuel _ _ _ _ x_sprintf_none), Hsp. cbn [bind memm locals].
+      rewrite exec_seq, exec_expr. cbn [eval]. rewrite (get_local_ok0 L m2 4 (VPtr bmsg 0) eq_refl) by discriminate. cbn [bind memm locals].
+      rewrite (cx_ext ext fuel _ _ _ _ x_ex_print_none), Hpr. cbn [bind memm locals].
+      unfold ret0. rewrite exec_return. reflexivity.
+  Qed.
 End Cmds.
 
 (* ------------------------------------------------------------------ a memory and a table oracle to RUN the commands on *)
@@ -889,4 +1272,36 @@ Lemma run_insert_examples :
   run 0 0 [] 97 = Some (VInt 0, Some [VInt 0], [[VInt 3; VPtr bl 0; txt; VInt 0; VInt 0]]) /\
   run 0 1 [48] 97 = Some (VInt 0, Some [VInt 0], [[VInt 3; VPtr bl 0; txt; VInt 0; VInt 0]]) /\
   run 5 5 [55] 97 = Some (VInt 1, Some [VInt 0], []).
+Proof. vm_compute. repeat split; reflexivity. Qed.
+
+(* a memory with the table of line pointers: cmd_mem with lb->ln = block bl + 4 = [&"a\n"; &"b\n"; &"c\n"; &"d\n"; &"e\n"], the lines in bl + 5 .. bl + 9 *)
+Definition print_mem (xrow : Z) (addr cmd arg : list Z) : mem :=
+  let bl := length cglobals in
+  upd (upd cglobals G_xrow [VInt xrow]) G_bufs (upd gb_bufs BUFS_LB (VPtr bl 0))
+  ++ [upd (lbuf_blk 5) L_ln (VPtr (bl + 4) 0); cstr_block addr; cstr_block cmd; cstr_block arg;
+      [VPtr (bl + 5) 0; VPtr (bl + 6) 0; VPtr (bl + 7) 0; VPtr (bl + 8) 0; VPtr (bl + 9) 0];
+      cstr_block [97; 10]; cstr_block [98; 10]; cstr_block [99; 10]; cstr_block [100; 10]; cstr_block [101; 10]].
+(* `2,4p`: ex_print(lb->ln[1]), ex_print(lb->ln[2]), ex_print(lb->ln[3]) in this order, xrow = 3, xoff = 0; `$p`; `0p`: 1, nothing printed (fix 6c95ca8);
+   the address-less print with the current line behind the buffer: 1.  The null command (the call itself, ex mode): `%`: the current line goes down, then all
+   five rows are printed, xrow = 4; without address: the next line is printed, xrow = 1.  `3=`: sprintf(msg, "%d\n", 3), ex_print(msg).
+   `3ka`: mark[0] of the struct lbuf = 2, and the mark's column 0. *)
+Lemma run_print_examples :
+  let bl := length cglobals in
+  let args := [VPtr (S bl) 0; VPtr (S (S bl)) 0; VPtr (S (S (S bl))) 0; VInt 0] in
+  let run xr addr cmd := show (ec_print_run (log_ext 5 []) 100 10 (VPtr (S bl) 0) (VPtr (S (S bl)) 0) (VPtr (S (S (S bl))) 0) (VInt 0) (print_mem xr addr cmd []) (VInt 0)) (bl + 12) in
+  run 0 [50; 44; 52] [112] = Some (VInt 0, Some [VInt 3], [[VInt 4; VPtr (bl + 6) 0]; [VInt 4; VPtr (bl + 7) 0]; [VInt 4; VPtr (bl + 8) 0]]) /\
+  run 0 [36] [112] = Some (VInt 0, Some [VInt 4], [[VInt 4; VPtr (bl + 9) 0]]) /\
+  run 0 [48] [112] = Some (VInt 1, Some [VInt 0], []) /\
+  run 5 [] [] = Some (VInt 1, Some [VInt 5], []) /\
+  run 2 [] [] = Some (VInt 0, Some [VInt 2], [[VInt 4; VPtr (bl + 7) 0]]) /\
+  show (callx (log_ext 5 []) cprog 100 12 F_ec_null args (print_mem 0 [37] [] [])) (bl + 14)
+  = Some (VInt 0, Some [VInt 4], [[VInt 4; VPtr (bl + 5) 0]; [VInt 4; VPtr (bl + 6) 0]; [VInt 4; VPtr (bl + 7) 0]; [VInt 4; VPtr (bl + 8) 0]; [VInt 4; VPtr (bl + 9) 0]]) /\
+  show (callx (log_ext 5 []) cprog 100 12 F_ec_null args (print_mem 0 [] [] [])) (bl + 14) = Some (VInt 0, Some [VInt 1], [[VInt 4; VPtr (bl + 6) 0]]) /\
+  show (callx (log_ext 5 []) cprog 100 12 F_ec_null args (print_mem 4 [] [] [])) (bl + 14) = Some (VInt 0, Some [VInt 4], [[VInt 4; VPtr (bl + 9) 0]]) /\
+  show (ec_lnum_run (log_ext 5 []) 100 10 (VPtr (S bl) 0) (VPtr (S (S bl)) 0) (VPtr (S (S (S bl))) 0) (VInt 0) (print_mem 0 [51] [61] []) (VInt 0)) (bl + 13)
+  = Some (VInt 0, Some [VInt 0], [[VInt 5; VPtr (bl + 10) 0; VPtr G_lit_25640a_3 0; VInt 3]; [VInt 4; VPtr (bl + 10) 0]]) /\
+  match ec_mark_run (log_ext 5 []) 100 10 (VPtr (S bl) 0) (VPtr (S (S bl)) 0) (VPtr (S (S (S bl))) 0) (VInt 0) (print_mem 0 [51] [107] [97]) (VInt 0) with
+  | Ok (v, m') => Some (v, option_map (fun blk => (nth 0 blk VUndef, nth 32 blk VUndef, nth 1 blk VUndef)) (nth_error m' bl))
+  | Err _ => None
+  end = Some (VInt 0, Some (VInt 2, VInt 0, VInt (-1))).
 Proof. vm_compute. repeat split; reflexivity. Qed.
